@@ -46,10 +46,10 @@ def drivers(tier):
             shapes=((), ('A',), ('HKR',), ('A', 'HKR'), ('X', 'HKR'))),
             dict(max_states=1000000, time_budget=900))
         d['queries-from-callbacks'] = (WorldDriver(
-            'queries-from-callbacks', own='Q', types=('A', 'B', 'H'),
+            'queries-from-callbacks', own='Q', types=('A', 'H'),
             ids=(1, 2), explicit_ids=(1, 2), max_autos=1, coarse=False,
-            shapes=((), ('A',), ('H',), ('A', 'H'), ('B', 'H'))),
-            dict(max_states=1500000, time_budget=1200))
+            shapes=((), ('A',), ('H',), ('A', 'H'), ('H', 'A'))),
+            dict(max_states=1500000, time_budget=900))
         d['coarse-fixpoint'] = (WorldDriver(
             'coarse-fixpoint', own='Q', ids=(1, 2, 3), explicit_ids=(1, 2),
             max_autos=2), {})
